@@ -209,8 +209,8 @@ func routingWire(nL, nR int, seed int64) (viol []rec.Violation, counts map[strin
 	ctx, cancel := context.WithCancel(context.Background())
 	defer cancel()
 	cc, err := proxy.NewClusterConnection(ctx, config.ClusterConnConfig{Name: "verif-routing",
-		Local:  config.ClusterDefinition{ConnectionType: config.ConnTypeTCP, TcpClient: config.TCPTLSInfo{ConnectionString: L.lis.Addr().String()}, TcpServer: config.TCPTLSInfo{ConnectionString: outAddr}},
-		Remote: config.ClusterDefinition{ConnectionType: config.ConnTypeTCP, TcpClient: config.TCPTLSInfo{ConnectionString: R.lis.Addr().String()}, TcpServer: config.TCPTLSInfo{ConnectionString: inAddr}},
+		Local:            config.ClusterDefinition{ConnectionType: config.ConnTypeTCP, TcpClient: config.TCPTLSInfo{ConnectionString: L.lis.Addr().String()}, TcpServer: config.TCPTLSInfo{ConnectionString: outAddr}},
+		Remote:           config.ClusterDefinition{ConnectionType: config.ConnTypeTCP, TcpClient: config.TCPTLSInfo{ConnectionString: R.lis.Addr().String()}, TcpServer: config.TCPTLSInfo{ConnectionString: inAddr}},
 		ShardCountConfig: config.ShardCountConfig{Mode: config.ShardCountRouting, LocalShardCount: int32(nL), RemoteShardCount: int32(nR)},
 	}, fakes.NewProbe(seed))
 	if err != nil {
